@@ -414,8 +414,8 @@ func ApplyJSONPath(node *Node, commands []string) (result []*Node, err error) {
 							}
 						}
 					} else if ikeys[2] < 0 {
-						if ikeys[0] > element.Size() {
-							ikeys[0] = element.Size()
+						if ikeys[0] > element.Size()-1 {
+							ikeys[0] = element.Size() - 1
 						}
 						if ikeys[1] < -1 {
 							ikeys[1] = -1
